@@ -149,6 +149,13 @@ func (el *eventloop) enroll(c net.Conn, addr net.Addr, ctx any) (resCh chan Regi
 			resCh <- RegisteredResult{Err: err1}
 			return
 		}
+		// The duplicate belongs to nobody until the connection is handed to the event-loop.
+		handedOver := false
+		defer func() {
+			if !handedOver {
+				_ = unix.Close(dupFD)
+			}
+		}()
 
 		var (
 			sockAddr unix.Sockaddr
@@ -186,6 +193,7 @@ func (el *eventloop) enroll(c net.Conn, addr net.Addr, ctx any) (resCh chan Regi
 		gc.SetContext(ctx)
 		gc.SetSafeContext(ctx)
 
+		handedOver = true
 		connOpened := make(chan struct{})
 		ccb := &connWithCallback{c: gc, cb: func() {
 			close(connOpened)
